@@ -33,7 +33,9 @@ STUB = ["errno faults at open()/mkdir()/exists()", "stand-in peer program for a 
 ASSUMPTIONS = [
     "a fault counts only if it fired (its seam call was reached or its document was opened) - recorded per run",
     "'undefined macro' is injected only into rules for which at least one macro definition is supplied (C19's scope; see DESIGN.md)",
-    "outcomes still FOUND under a fault are tolerated (tallied), only False/[]/exit-0-without-found are violations",
+    "for faults after which the rule or the input cannot have been read / parsed / disassembled (missing, unreadable, undecodable or malformed files; "
+    "absent, failing or killed objdump; not an object) ANY verdict is a violation; for the other listed faults (wrongly typed entries, groups, $not, "
+    "$deref, bounds, undefined macros, regex deadline) an outcome that is still FOUND is tolerated (tallied) and only False/[]/exit-0-without-found violates",
     "short or torn reads that yield another valid document are not injected (indistinguishable from a different input)",
 ]
 
@@ -109,6 +111,17 @@ def is_found(oc):
     if oc[0] == "cli":
         return oc[1] == 0 and oc[2] == "found"
     return False
+
+
+HARD_PREFIXES = ("enoent:", "eisdir:", "eacces:", "emfile:", "eio_open:", "enomem_open:", "eio_read:", "bad_utf8:", "exists_false:",
+                 "prog_absent:", "prog_eacces:", "fork_enomem:", "fork_eagain:", "rc1_", "rc2_", "rc127", "rcN_", "killed_", "not_elf:", "empty_file:",
+                 "truncated_elf:", "D:malformed", "D:empty_doc", "D:scalar_doc", "D:list_doc", "D:macro_file_")
+
+
+def is_hard(label: str) -> bool:
+    """Faults after which the rule or the input simply cannot have been read / parsed / disassembled: the statement's
+    first sentence applies without any room - the operation must terminate with an error, FOUND is as wrong as NOT FOUND."""
+    return label.startswith(HARD_PREFIXES)
 
 
 def classify(oc):
@@ -256,6 +269,11 @@ def run_one(index, seed, runner, tier, opts):
         distinct.add(f"{label}|{wclass}|{cls}")
         if cls == "loud":
             counters["outcome"]["loud"] += 1
+        elif cls == "found" and is_hard(label):
+            counters["outcome"]["hard_fault_tolerated"] = counters["outcome"].get("hard_fault_tolerated", 0) + 1
+            case = {"files": {k: util.enc_content(v) for k, v in files.items()}, "ops": [fop],
+                    "extra": {"info": info, "no_yaml_shrink": f["label"].startswith("D:")}}
+            violations.append({"case": case, "violation": _violation(f, fop, oc, info, hard=True)})
         elif cls == "found":
             counters["outcome"]["tolerated_found"] += 1
             counters["tolerated_found"][label] = counters["tolerated_found"].get(label, 0) + 1
@@ -372,8 +390,16 @@ def signature(f, op):
     return f["label"].split("@")[0]
 
 
-def _violation(f, fop, oc, info):
+def _violation(f, fop, oc, info, hard=False):
     shown = oc[:3] if oc[0] != "cli" else [oc[0], oc[1], oc[2], oc[3][:2]]
+    if hard:
+        return {
+            "clause": "unreadable-input-did-not-end-in-error",
+            "signature": signature(f, fop) + ":tolerated",
+            "detail": f"fault {f['label']} fired in {info['entry']}/{info['type']} mode (the rule or the input could not be read / parsed / disassembled) "
+                      f"and the operation ended with the verdict {shown} instead of an error",
+            "got": shown,
+        }
     return {
         "clause": "fired-fault-ended-in-not-found",
         "signature": signature(f, fop),
@@ -404,13 +430,19 @@ def evaluate(case, runner):
     oc = res["outcomes"][-1]
     if not res["fired"][-1]:
         return []
-    if classify(oc) != "silent":
+    cls = classify(oc)
+    if cls == "loud":
         return []
     out = []
     suffix = ":after-predecessor" if len(case["ops"]) > 1 else (":non-utf8-name" if no_control else "")
     for idx in res["fired"][-1]:
         f = fop["faults"][idx]
-        v = _violation(f, fop, oc, (case.get("extra") or {}).get("info") or {"entry": fop["op"], "type": fop.get("type", "?")})
-        v["signature"] += suffix
-        out.append(v)
+        label = f["label"].split("@")[0]
+        info = (case.get("extra") or {}).get("info") or {"entry": fop["op"], "type": fop.get("type", "?")}
+        if cls == "silent":
+            v = _violation(f, fop, oc, info)
+            v["signature"] += suffix
+            out.append(v)
+        elif is_hard(label) and len(case["ops"]) == 1 and not no_control:
+            out.append(_violation(f, fop, oc, info, hard=True))
     return out
